@@ -80,6 +80,16 @@ CHECKS = {
             'one fault per scenario; network simulated below gsocket; sendall atomic; idle serial connections notice a peer close at the next I/O',
             'fault-position x fault-kind enumeration from baseline I/O traces + Hypothesis scenarios; probe-after-fault oracle',
             '5/C08', 'simnet'),
+    'C09': ('exploration',
+            'Long virtual-time world plans (60-400 s) for both public builder stacks, aperture and heap balancers, 1-3 endpoints '
+            'sharing an up/down timeline (reset, down at first connect, silent black-hole for ThriftMux), steady caller traffic, '
+            'close at a drawn time, two resurrector configurations. From the network log and call outcomes: no call waits while '
+            'down, FailedFastError once the fault is known (one raw connection error per endpoint for first contact), reconnect '
+            'gaps non-decreasing / >= initial / <= max / growing, a call succeeds within one maximum retry interval after the '
+            'endpoints are back and calls keep succeeding, no connect after close.',
+            'endpoints of a plan share one timeline; liveness as bounded-time safety; overhead allowance 1 s (6 s + one ping period for black-holes)',
+            'Hypothesis long virtual-time world plans; fail-fast, back-off spacing, recovery bound, silence after close',
+            '5/C09', 'simnet'),
     'C10': ('exploration',
             'Generated schedule/cancel/advance histories (actions may schedule or cancel) are run against the real '
             'TimerQueue on a virtual clock and compared with a reference schedule after every clock advance: '
@@ -173,7 +183,7 @@ CHECKS = {
             '5/C20', 'pbt'),
 }
 
-NOT_YET = 'check not built yet in this stage of the build (planned in DESIGN.md section 5)'
+NOT_YET = 'not claimed'
 
 
 def main():
